@@ -11,6 +11,8 @@ import time
 
 import common
 import c06_ops
+import c06_cov
+import c06_forms
 from common import CoqRaw, coq_lit, Nat
 
 F2A = 'C06:LegPipe.outer_conj:qconj=-1-not-flipped'
@@ -19,6 +21,10 @@ F3A = 'C06:LegCharge.get_qindex:flat_index==ind_len-accepted'
 F3B = 'C06:Array.get_leg_index:label==rank-accepted'
 F5 = 'C06:Array.combine_legs:unlabeled-non-combined-leg-renamed-?#'
 F6 = 'C06:Array.sort_legcharge:sort=False,bunch=False-IndexError'
+F7 = 'C06:Array.sort_legcharge:sort=perm-array-ValueError'
+F8 = 'C06:Array.combine_legs:new_axes-tuple-with-negative-entry-TypeError'
+ARRAY_KEYS = {'get_leg_index:rank': F3B, 'labels:qmark': F5, 'sort_legcharge:nothing-requested': F6, 'sort_legcharge:perm-array': F7,
+              'combine:new_axes-tuple-negative': F8}
 
 
 # ------------------------------------------------------------------------------------------------
@@ -304,6 +310,109 @@ def pipe_oracle(case, r):
     return probs
 
 
+def accessor_problems(mods, sizes, nch, qc, acc):
+    """accessors / constructors / comparisons of a LegCharge with blocks (sizes, nch reduced charges) and direction qc"""
+    if acc is None:
+        return ['the runner returned no accessor results']
+    probs = []
+    nb = len(sizes)
+    sl = [sum(sizes[:i]) for i in range(nb + 1)]
+    if acc['get_slice'] != [[sl[q], sl[q + 1]] for q in range(nb)]:
+        probs.append('get_slice: %s' % acc['get_slice'])
+    if acc['get_charge'] != [[qc * x for x in c] for c in nch]:
+        probs.append('get_charge(q) is not charges[q]*qconj: %s' % acc['get_charge'])
+    if acc['block_sizes'] != list(sizes):
+        probs.append('get_block_sizes: %s' % acc['block_sizes'])
+    tup = [tuple(c) for c in nch]
+    want_flags = [len(set(tup)) == nb, (not mods) or lexsorted(nch), all(tup[i] != tup[i + 1] for i in range(nb - 1)) and (bool(mods) or nb <= 1)]
+    if acc['flags'] != want_flags:
+        probs.append('is_blocked/is_sorted/is_bunched: %s, expected %s' % (acc['flags'], want_flags))
+    want_sec = sorted(set(tup), key=lambda c: tuple(reversed(c)))
+    if [tuple(c) for c in acc['charge_sectors']] != want_sec:
+        probs.append('charge_sectors: %s, expected %s' % (acc['charge_sectors'], want_sec))
+    if want_flags[0]:
+        want_qd = sorted([list(c), sl[q], sl[q + 1]] for q, c in enumerate(nch))
+        if acc['to_qdict'] != want_qd:
+            probs.append('to_qdict: %s, expected %s' % (acc['to_qdict'], want_qd))
+    elif acc['to_qdict'] != 'ValueError':
+        probs.append('to_qdict of a leg that is not blocked: %s, documented ValueError' % (acc['to_qdict'],))
+    for c, got in acc['qindex_of_charges']:
+        # inverse of get_charge: blocks whose charges[q]*qconj equals c (modulo)
+        hits = [q for q in range(nb) if mod_eq(mods, [qc * x for x in nch[q]], c)]
+        want = hits[0] if len(hits) == 1 else 'ValueError'
+        if got != want:
+            probs.append('get_qindex_of_charges(%s) = %s, expected %s (blocks with that charge: %s)' % (c, got, want, hits))
+    qf = [list(c) for s, c in zip(sizes, nch) for _ in range(s)]
+    for name in ('from_qflat', 'from_qflat_1d'):
+        f = acc.get(name)
+        if f is not None and (f['blocks'] != [[1, c] for c in qf] or f['qconj'] != qc or f['sane'] is not None):
+            probs.append('%s(to_qflat()) is not one block per index with the same charges: %s' % (name, f))
+    for what, got in sorted(acc.get('rejects', {}).items()):
+        if got not in ('ValueError', 'AssertionError', 'skipped'):
+            probs.append('a malformed leg / argument is not rejected: %s -> %s' % (what, got))
+    f = acc.get('from_qdict') if mods else None      # (qnumber 0: from_qdict cannot parse the empty charge tuples; constructor, not a statement of C06)
+    if f is not None and (isinstance(f, str) or f['blocks'] != [[s, list(c)] for s, c in zip(sizes, nch)] or f['qconj'] != qc or f['sane'] is not None):
+        probs.append('from_qdict(to_qdict()) does not rebuild the leg: %s' % (f,))
+    n = sum(sizes)
+    f = acc['from_trivial']
+    if f['blocks'] != [[n, [0] * len(mods)]] or f['qconj'] != qc or f['sane'] is not None:
+        probs.append('from_trivial(ind_len, chinfo, qconj): %s' % f)
+    f = acc['from_trivial_default']
+    if f['blocks'] != [[n, []]] or f['qconj'] != 1 or f['sane'] is not None or f['qnumber'] != 0:
+        probs.append('from_trivial(ind_len): %s' % f)
+    e = acc['eq']
+    want_e = {'self': True, 'copy': True, 'rebuilt': True, 'fine_blocks': e['fine_same_structure'], 'ne_fine_blocks': not e['fine_same_structure'],
+              'fine_same_structure': e['fine_same_structure'], 'longer': False, 'other_chinfo': 'ValueError',
+              'doubled_blocks': n == 0, 'test_equal_doubled_blocks': 'accepted' if n == 0 else 'ValueError',
+              'test_equal_other_chinfo': 'ValueError', 'test_equal_longer': 'ValueError', 'test_contractible_longer': 'ValueError'}
+    if e != want_e:
+        probs.append('==/!=/test_equal/test_contractible with a copy / other block structure / longer leg / other ChargeInfo: %s, expected %s' % (e, want_e))
+    ag = acc['again']
+    for b in (1, 0):
+        x = ag['sort_%d' % b]
+        if not x['same'] or x['perm'] != list(range(len(x['perm']))):
+            probs.append('sort(bunch=%d) of the sorted leg is not the identity: %s' % (b, x))
+    x = ag['bunch']
+    if not x['same'] or x['idx'] != list(range(x['n'] + 1)):
+        probs.append('bunch() of the bunched leg is not the identity: %s' % x)
+    return probs
+
+
+def nested_oracle(case, r):
+    """pipe of pipes: -> (the case as seen by the outer pipe: first incoming leg = outgoing leg of the inner pipe, problems)"""
+    probs = []
+    mods = case['mods']
+    ic = case['inner']
+    ri = r['inner']
+    inner_case = {'mods': mods, 'legs': case['legs'][:ic['n']], 'qconj': ic['qconj'], 'sort': ic['sort'], 'bunch': ic['bunch']}
+    for _, text in pipe_core_oracle(inner_case, ri):
+        probs.append('inner pipe of a pipe of pipes: ' + text)
+    spec = [[b - a for a, b in zip(ri['slices'], ri['slices'][1:])], ri['charges'], ic['qconj']]
+    eff = dict(case, legs=[spec] + case['legs'][ic['n']:])
+    # the composed index map (inner map_incoming_flat, then outer) fuses the ORIGINAL legs
+    legs = case['legs']
+    lens = [sum(l[0]) for l in legs]
+    total = 1
+    for x in lens:
+        total *= x
+    comp = r['composed']
+    if None in comp or sorted(comp) != list(range(total)):
+        probs.append('pipe of pipes: the composed index map is not a bijection onto range(%d): %s' % (total, comp[:12]))
+    else:
+        leg_qflat = [c06_ops.qflat_of(mods, l[0], l[1]) for l in legs]
+        for t, k in zip(itertools.product(*[range(x) for x in lens]), comp):
+            want = [sum(legs[l][2] * leg_qflat[l][t[l]][c] for l in range(len(legs))) for c in range(len(mods))]
+            got = [case['qconj'] * x for x in r['qflat'][k]]
+            if not mod_eq(mods, want, got):
+                probs.append('pipe of pipes: fusion rule violated at the original incoming indices %s -> outgoing index %d: qconj*charge %s, '
+                             'sum of qconj_l*charge_l %s (mod %s)' % (list(t), k, got, want, mods))
+                break
+    ci_ = r['conj_inner']
+    if not ci_['is_pipe'] or ci_['qconj'] != -ic['qconj'] or ci_['legs_qconj'] != [-l[2] for l in legs[:ic['n']]]:
+        probs.append('conj() of a pipe of pipes: the inner pipe %s, documented: conjugated together with its incoming legs' % ci_)
+    return eff, probs
+
+
 def leg_oracle(case, r):
     probs = []
     mods = case['mods']
@@ -386,6 +495,7 @@ def leg_oracle(case, r):
                 'contr_flipconj': True, 'equal_self_conj': selfconj, 'contr_self_self': selfconj, 'contr_self_flip': selfconj}
     if rel != want_rel:
         probs.append((None, 'test_equal/test_contractible: %s, expected %s' % (rel, want_rel)))
+    probs += [(None, t) for t in accessor_problems(mods, sizes, nch, qc, r.get('acc'))]
     # get_qindex
     sl = [sum(sizes[:i]) for i in range(len(sizes) + 1)]
     for i, got in r['get_qindex']:
@@ -423,7 +533,8 @@ def run_chunks(script, kind, cases, config, optimize0=True, extra=None):
         k += 1
         if err:
             return None, err
-        for j, x in enumerate(r):
+        c06_cov.add_lines(kind + '-' + config, r.get('lines'))
+        for j, x in enumerate(r['res']):
             out[i + j * n] = x
     return out, None
 
@@ -472,53 +583,6 @@ def coverage_table(ctx, cls, tables, seen, expect):
     return out
 
 
-def rand_array_case(rng, seed):
-    mods = rng.choice(MODS)
-    rank = rng.choice([2, 3, 3, 4, 4])
-    legs = []
-    for _ in range(rank):
-        l = rand_leg(rng, mods, maxb=3, sizes=(1, 1, 2, 2, 0) if rng.random() < 0.3 else (1, 2), lo=-1, hi=2)
-        legs.append(l)
-    axes = list(range(rank))
-    rng.shuffle(axes)
-    ngroups = rng.choice([1, 1, 2]) if rank >= 3 else 1
-    groups = []
-    pos = 0
-    for g in range(ngroups):
-        remaining = rank - pos - (ngroups - g - 1)
-        k = rng.randint(1, max(1, min(3, remaining)))
-        groups.append(axes[pos:pos + k])
-        pos += k
-    nres = rank - sum(len(g) for g in groups) + len(groups)
-    new_axes = None
-    if rng.random() < 0.35:
-        new_axes = rng.sample(range(nres), len(groups))
-        if rng.random() < 0.3:
-            new_axes = [a - nres for a in new_axes]
-    labels = ['a', 'b', 'c', 'd'][:rank]
-    if rng.random() < 0.3:
-        labels[rng.randrange(rank)] = None
-    qconj = None
-    r = rng.random()
-    if r < 0.3:
-        qconj = rng.choice([1, -1])
-    elif r < 0.5:
-        qconj = [rng.choice([1, -1]) for _ in groups]
-    case = {'seed': seed, 'mods': mods, 'legs': legs, 'qtotal_block': [rng.randrange(3) for _ in range(rank)],
-            'labels': labels, 'combine': groups, 'new_axes': new_axes, 'qconj': qconj, 'by_label': rng.random() < 0.5,
-            'complex': rng.random() < 0.2, 'drop_blocks': rng.choice([0, 0, 1, 2]),
-            'nest_rev': rng.random() < 0.5, 'nest_qconj': rng.choice([1, -1]),
-            'sort_legs': rng.choice([True, False, [rng.random() < 0.5 for _ in range(rank)]]),
-            'bunch_legs': rng.choice([True, False, [rng.random() < 0.5 for _ in range(rank)]])}
-    if rng.random() < 0.2:
-        case['given_pipes'] = rng.choice(['same', 'conj'])
-        case['given_pipes_qconj'] = rng.choice([1, -1])
-        case['sort'] = rng.random() < 0.7
-        case['bunch'] = rng.random() < 0.7
-        case['qconj'] = None
-    return case
-
-
 def main(ctx):
     rng = ctx.rng
     timing = ctx.cov['timing_s'] = {}
@@ -563,6 +627,18 @@ def main(ctx):
             tot *= sum(l[0])
         if tot <= 64:
             pipes.append(c)
+    # pipes of pipes: the first n legs are fused into an inner pipe (own direction / sort / bunch), which is the first incoming leg
+    n_nested = 0
+    while n_nested < ctx.pick(250, 1500) * boost:
+        c = rand_pipe(rng, maxlegs=4)
+        tot = 1
+        for l in c['legs']:
+            tot *= sum(l[0])
+        if len(c['legs']) < 2 or tot > 64:
+            continue
+        c['inner'] = {'n': rng.randint(1, len(c['legs']) - 1), 'qconj': rng.choice([1, -1]), 'sort': rng.random() < 0.6, 'bunch': rng.random() < 0.6}
+        pipes.append(c)
+        n_nested += 1
     # method stream: every public method that returns a leg is applied to every pipe; for a budgeted subset an Array
     # carrying each resulting pipe is split / recombined (all random pipes + a stride of the enumeration)
     narr = ctx.pick(1500, 10000) * boost
@@ -573,6 +649,7 @@ def main(ctx):
             c['arr_seed'] = ctx.seed * 7919 + i
         if i < common.NPROC:
             c['table'] = True
+        c['legs_tuple'] = bool(i % 2)      # `legs` given as a tuple / as a list
     lap('generate')
     res_py, err = run_chunks('c06_impl.py', 'pipe', pipes, 'py')
     lap('pipe-impl-py')
@@ -593,7 +670,7 @@ def main(ctx):
     method_fails = []
     tables = []
     seen_pipe = {}
-    hist = {'collisions': 0, 'single_block': 0, 'qconj-1': 0, 'zero_size': 0, 'nlegs': {}}
+    hist = {'collisions': 0, 'single_block': 0, 'qconj-1': 0, 'zero_size': 0, 'nested': 0, 'nlegs': {}}
     for i, (case, r) in enumerate(zip(pipes, res_py)):
         if 'runner_error' in r:
             ctx.fail('oracle', 'LegPipe construction / methods raised on valid legs: ' + r['runner_error'][-400:],
@@ -614,20 +691,30 @@ def main(ctx):
                     ctx.fail('oracle', 'compiled and python configuration differ in %s of a LegPipe (ops: results of its public methods / '
                              'split_legs, combine_legs of an Array carrying them)' % diff,
                              {'stream': 'pipe', 'config': 'cy', 'case': case, 'py': {k: show(r, k) for k in diff}, 'cy': {k: show(rc, k) for k in diff}})
+        orig_case = eff_case = case
+        if case.get('inner'):
+            case, nprobs = nested_oracle(case, r)
+            eff_case = case
+            hist['nested'] += 1
+            for text in nprobs:
+                ctx.fail('oracle', text, {'stream': 'pipe-nested', 'config': 'py', 'case': orig_case})
+        for text in r.get('mif_forms', []):
+            ctx.fail('oracle', text, {'stream': 'pipe', 'config': 'py', 'case': orig_case})
         for key, text in pipe_oracle(case, r):
-            ctx.fail('oracle', text, {'stream': 'pipe', 'config': 'py', 'case': case}, match_key=key)
+            ctx.fail('oracle', text, {'stream': 'pipe', 'config': 'py', 'case': orig_case}, match_key=key)
         # every public method that returns a leg, applied to this pipe
         if 'method_table' in r:
             tables.append(r['method_table'])
         mods = case['mods']
         nlegs_ = [[l[0], [norm_charge(mods, c) for c in l[1]], l[2]] for l in case['legs']]
         base = {'mods': mods, 'sizes': [b - a for a, b in zip(r['slices'], r['slices'][1:])], 'charges': r['charges'],
-                'qconj': case['qconj'], 'is_pipe': True, 'qflat': r['qflat'], 'legs': nlegs_}
+                'qconj': case['qconj'], 'is_pipe': True, 'qflat': r['qflat'], 'legs': nlegs_, 'legs_plain': not case.get('inner')}
         aux = {'mask': default_mask(r['ind_len']), 'extend_int': 1, 'extend_leg': nlegs_[0]}
         oprobs, seen, coq_ops = c06_ops.ops_oracle(mods, base, aux, r['ops'], r, pipe_core_oracle)
         merge_seen(seen_pipe, seen)
         for key, text in oprobs[:6]:
-            method_fails.append((0 if ('breaks the pipe contract' in text or 'an Array carrying' in text) else 1, key, text, case))
+            method_fails.append((0 if ('breaks the pipe contract' in text or 'an Array carrying' in text) else 1, key, text, orig_case))
+        case = orig_case
         ctx.count('pipe-methods', case, nontrivial=len(r['q_map']) > 1 and any(any(c) for c in r['charges']),
                   sample={'case': case, 'methods': sorted(seen)})
         n_op_lits += len(coq_ops)
@@ -640,7 +727,7 @@ def main(ctx):
         hist['nlegs'][len(case['legs'])] = hist['nlegs'].get(len(case['legs']), 0) + 1
         ctx.count('pipe', case, nontrivial=nrows > 1,
                   sample={'case': case, 'charges': r['charges'], 'q_map': r['q_map'], 'mif': r['mif']})
-        lits.append(pipe_case2_lit(case, r, coq_ops))
+        lits.append(pipe_case2_lit(eff_case, r, coq_ops))
         lit_idx.append(i)
     method_fails.sort(key=lambda x: x[0])      # replay: prefer an input on which the contract itself (fusion rule / split) fails
     for _, key, text, case in method_fails[:200]:
@@ -732,13 +819,15 @@ def main(ctx):
     # ---------------- arrays: combine_legs / split_legs / sort_legcharge / as_completely_blocked, both configs
     acases = [c['case'] for c in common.corpus_cases('C06') if c.get('stream') == 'array']
     na = ctx.pick(300, 2000) * boost
-    for k in range(na):
-        c = rand_array_case(rng, ctx.seed * 1000003 + k)
-        tot = 1
-        for l in c['legs']:
-            tot *= max(1, sum(l[0]))
-        if tot <= 400:
-            acases.append(c)
+    wishes = list(c06_forms.FEATURES) * ctx.pick(1, 3)      # every option class is forced at least once, the rest is a random mix
+    for k in range(len(wishes) + na):
+        wish = wishes[k] if k < len(wishes) else None
+        for _ in range(200):
+            c = c06_forms.gen_array_case(rng, ctx.seed * 1000003 + k, wish)
+            if c06_forms.case_size(c) <= 400:
+                break
+        acases.append(c)
+    tag_counts = {}
     for config in ('py', 'cy'):
         res_a, err = run_chunks('c06_impl.py', 'array', acases, config, optimize0=(config == 'py'))
         if err:
@@ -750,16 +839,39 @@ def main(ctx):
                          {'stream': 'array', 'config': config, 'case': case})
                 continue
             for key, text in r['problems']:
-                mk = F3B if key == 'get_leg_index:rank' else F5 if key == 'labels:qmark' else F6 if key == 'sort_legcharge:nothing-requested' else None
-                ctx.fail('oracle', text, {'stream': 'array', 'config': config, 'case': case}, match_key=mk)
+                ctx.fail('oracle', text, {'stream': 'array', 'config': config, 'case': case}, match_key=ARRAY_KEYS.get(key))
+            if r.get('note_new_axes_mutated'):
+                t = 'Array.combine_legs rewrites negative entries of the list passed as new_axes in place (argument of the caller modified; not a statement of C06)'
+                if t not in ctx.notes:
+                    ctx.notes.append(t)
+            for t in list(case.get('tags', [])) + list(r.get('tags', [])):
+                tc = tag_counts.setdefault(t, {})
+                tc[config] = tc.get(config, 0) + 1
             ctx.count('array-' + config, case, nontrivial=r['stored_blocks'] > 1,
                       sample={'case': case, 'stored_blocks': r['stored_blocks']})
+    ctx.cov['array_option_table'] = c06_cov.option_table(ctx, tag_counts, c06_forms.REQUIRED, c06_forms.REQUIRED_STRUCT)
     lap('array')
+    # ---------------- coverage audit tables: lines of the anchored pure-python code, public names, signatures, option classes
+    refl, err = common.run_impl('c06_impl.py', {'kind': 'reflect', 'cases': []}, config='py')
+    if err:
+        ctx.fail('correspondence', 'reflection runner failed: ' + err[-400:], None)
+    reflect = refl['res'] if not err else None
+    ftable, fsum = c06_cov.function_table(ctx, common.REPO, reflect)
+    ctx.cov['anchored_function_coverage'] = ftable
+    ctx.cov['anchored_coverage_summary'] = fsum
+    ctx.cov['public_name_classification'] = c06_cov.public_table(ctx, reflect)
+    lap('coverage-tables')
     ctx.assumptions += [
         'C06 model: block sizes / flat indices are integers, charges unbounded integers (no int64 overflow); cached flags sorted/bunched '
         'are not modelled (checked by test_sanity at TENPY_OPTIMIZE=0 in the oracle)',
         'C06: placement of tensor entries by combine_legs/split_legs (dense reshape/transpose oracle), nested pipes, sort_legcharge, '
         'as_completely_blocked and labels are oracle-checked only (not proved)',
+        'C06 coverage audit: excluded from the line demand (reasons in coverage.anchored_function_coverage): HDF5 I/O of legs (C17), '
+        'from_add/drop/change_charge (change the ChargeInfo), __repr__, branches of _make_stride/_map_blocks/_partial_qtotal only used by tensordot, '
+        'the early returns of optimisation level 3 (skip_arg_checks), one dead line of _split_legs_worker',
+        'C06: split_legs(cutoff > 0): dropping of split blocks whose largest |entry| is <= cutoff is tolerated as documented (the implementation '
+        'ignores the cutoff); LegCharge.from_qdict for qnumber 0 (cannot parse empty charge tuples) and perm_qind_from_perm_flat are not judged '
+        '(constructors / helpers not named by the property)',
     ]
     return ctx.finish(RULE, 'theorems of coq/Props/C06.v (any number of legs/blocks/sizes/charges) on Model/Pipe.v + Model/Leg.v; model tied '
                       'to LegPipe/LegCharge by vm_compute evaluation of every generated case in both the python and the compiled configuration')
@@ -773,5 +885,20 @@ RULE = ('pipe: enumeration of all pipes over small legs (domains listed in cover
         'has to obey the pipe contract (fusion rule recomputed from its stored incoming legs, bijection, q_map layout), the documented effect of '
         'the method on charges / direction / incoming legs, and - for all random pipes and a stride of the enumeration - an Array carrying it has '
         'to split into the stored legs with the dense-reshape entries and recombine; non-trivial = more than one block tuple and a non-zero charge.  '
-        'array: random rank 2-4 tensors x random leg groupings/new_axes/qconj/given pipes, python and compiled; '
-        'non-trivial = more than one stored block.')
+        'pipe-nested: pipes whose first incoming leg is itself a pipe of the first n legs (own direction/sort/bunch): contract of the inner and the '
+        'outer pipe, the composed index map is a bijection obeying the fusion rule of the ORIGINAL legs, conj() reaches the inner legs; the outer '
+        'pipe is also evaluated by the Coq model.  map_incoming_flat additionally with negative / tuple / ndarray arguments and its rejections '
+        '(index == ind_len, wrong number of indices).  leg: additionally every accessor (get_slice, get_charge, get_qindex_of_charges, to_qdict, '
+        'charge_sectors, is_*), the constructors from_qflat / from_qdict / from_trivial rebuilt from the accessors, ==/test_equal against other '
+        'block structures / ChargeInfo, second application of sort / bunch, rejection of malformed legs.  '
+        'array: rank 1-5 tensors over the OPTION SPACES and CALL FORMS of combine_legs (nested/flat list/tuple/ndarray/generator of int/label/mixed; '
+        'new_axes None/list/tuple/ndarray/int, negative; qconj None/int/list/tuple/ndarray; pipes None/list/tuple/single, given in the same or the '
+        'conjugated direction, partially None, built by LegPipe or make_pipe with/without kwargs), split_legs (axes None/int/label/negative/tuple/'
+        'one by one; cutoff 0 / below / above entries), as_completely_blocked, sort_legcharge (bool/list/perm array), tensors with all / some / one / '
+        'no stored block, shuffled _qdata, non-contiguous blocks, float/complex/int, zero-size blocks, unlabeled legs; every class is forced at '
+        'least once per run (coverage.array_option_table, a class that was not drawn is a failure); results are used again (recombination with the '
+        'pipes of the result and of the conjugate, nested combine, second sort/blocking, projected pipe through the documented work-around) and the '
+        'input tensor has to be unchanged; invalid calls have to raise; python and compiled; non-trivial = more than one stored block.  '
+        'coverage.anchored_function_coverage: executed lines of every function of LegCharge / LegPipe and of the fusion entry points and workers '
+        '(sys.monitoring in every runner process); an unexecuted line of a covered function, an unclassified public name and a changed signature '
+        'are failures.')
